@@ -28,6 +28,8 @@ def run(ctx):
         viewshist.run_exhaustive(ctx)
         viewshist.run_histories(ctx, 10000, 20)
     else:
+        # a small exhaustive slice grid on every run (the full one is the thorough tier's)
+        viewshist.run_exhaustive(ctx, lens=range(2, 5), bounds=[None, 0, 1, 2, 3, -1, -2], steps=(None, -1), nvals=range(0, 4))
         viewshist.run_histories(ctx, 400, 20)
     viewshist.run_claim_probes(ctx)
 
